@@ -19,6 +19,7 @@ import (
 
 func init() {
 	registerProbes()
+	registerHarnessProfiles()
 }
 
 func main() {
